@@ -1,5 +1,5 @@
 //@ unit entries_ctor
-//@ props C08 C12 C11 C09 C01
+//@ props C08 C12 C11 C09 C01 C03
 // The two constructors of a traversal, Memfs::_entries and Stdfs::entries: the options every traversal starts from (nothing
 // filtered, links not followed, the whole depth range, the descriptor cap of 50, no sorting, no callback, parents first) and the root
 // entry.  The engine's contract (unit entries_engine) needs max_descriptors < u16::MAX; chown / chmod / copy / remove_all / the
@@ -132,7 +132,7 @@ pub open spec fn lists_children(ps: Seq<PathBuf>, dir: PathV, kids: Set<Name>) -
     &&& forall|n: Name| kids.contains(n) ==> exists|i: int| 0 <= i < ps.len() && (#[trigger] ps[i])@ == dir.push(n)
 }
 impl MemfsEntryIter {
-//@ item lister_new file=src/sys/fs/memfs/entry.rs block="impl MemfsEntryIter" fn=new props=C08,C12,C01
+//@ item lister_new file=src/sys/fs/memfs/entry.rs block="impl MemfsEntryIter" fn=new props=C08,C12,C01,C03
 //@ sig pub(crate) fn new<T: AsRef<Path>>(path: T, entries: Arc<MemfsEntries>) -> RvResult<Self>
 //@ rw R1 * ⟦let path = path.as_ref();⟧ => ⟦⟧
 // R1: the element type of `items` is written out (the invariant names it before the first push fixes it)
@@ -181,7 +181,7 @@ impl MemfsEntryIter {
         ensures
             !entries@.contains_key(path@) ==> r is Err && r->Err_0.kind == ErrKind::DoesNotExist,                  //@ clause lister.missing_directory_is_does_not_exist [C01]
             entries@.contains_key(path@) ==> r is Ok && r->Ok_0.entries@ == entries@
-                && lists_children(r->Ok_0.iter.rest(), path@, match entries@[path@].kids { Some(k) => k, None => Set::<Name>::empty() }),     //@ clause lister.lists_every_child_of_the_directory_exactly_once [C08]
+                && lists_children(r->Ok_0.iter.rest(), path@, match entries@[path@].kids { Some(k) => k, None => Set::<Name>::empty() }),     //@ clause lister.lists_every_child_of_the_directory_exactly_once [C08,C03]
 //@ body
 
 //@ item lister_next file=src/sys/fs/memfs/entry.rs block="impl Iterator for MemfsEntryIter" fn=next props=C08,C12
